@@ -32,9 +32,13 @@ OPMAP = {
 
 
 def to_ops(hist, versioned):
+    """Model actions -> driver operations. Every written value gets a unique suffix so that a
+    read reply identifies exactly one write."""
     ops = []
-    for h in hist:
+    for n, h in enumerate(hist):
         o = h["op"]
+        if o == "Set":
+            h = dict(h); h["v"] = "%s%d" % (h["v"], n)
         if o in ("Set", "Del"):
             k = "k%d" % h["k"]
             if versioned:
@@ -161,6 +165,10 @@ def run(ctx):
         src = open(os.path.join(ctx._specdir(), gen_cfg)).read()
         open(os.path.join(ctx._specdir(), cfgname), "w").write(re.sub(r"MaxHist = \d+", "MaxHist = %d" % d, src))
         hists += gen_schedules(ctx, cfgname, num, d, ctx.seed * 1000 + d)
+        if versioned:  # versions written in non-decreasing order per key: no recorded deviation applies
+            src = open(os.path.join(ctx._specdir(), "Gen_EngineVM.cfg")).read()
+            open(os.path.join(ctx._specdir(), "VM" + cfgname), "w").write(re.sub(r"MaxHist = \d+", "MaxHist = %d" % d, src))
+            hists += gen_schedules(ctx, "VM" + cfgname, 2 * num, d, ctx.seed * 1000 + d + 1)
     ctx.rng.shuffle(hists)
     cap = 360 if quick else 6000
     hists = hists[:cap]
@@ -204,7 +212,8 @@ def run(ctx):
     nevents = sum(len(t) for t in tl)
     ctx.log("M3: %d traces / %d events validated, %d rejected" % (len(tl), nevents, len(rejected)))
     classes = {}
-    for (ti, line, pev) in rejected:
+    reported = set()
+    for (ti, line, pev, want) in rejected:
         sid = order[ti]
         cls = classify(pid, traces[sid], line)
         fid = "%s-%s" % (pid, cls) if cls else None
@@ -212,10 +221,11 @@ def run(ctx):
             if fid not in classes:
                 ctx.known_finding("%s: %s (e.g. schedule %d line %d: %s)" % (fid, known[fid]["what"], sid, line, json.dumps(pev)))
             classes[fid] = classes.get(fid, 0) + 1
-        else:
+        elif sid not in reported:
+            reported.add(sid)
             rp = ctx.save_replay("violation-%d.json" % sid, {"schedule": scheds[sid], "rejected_line": line, "event": traces[sid][line],
-                                                             "trace": traces[sid][:line + 1]})
-            ctx.violation(rp, "read contradicts the reference map: %s" % json.dumps(pev))
+                                                             "expected": want, "trace": traces[sid][:line + 1]})
+            ctx.violation(rp, "reply contradicts the reference map: %s expected %s" % (json.dumps(pev), want))
     # every listed finding must still be demonstrable, else it silently disappears (no line printed)
     # ------------------------------------------------------- binding self-test
     ctl = None
